@@ -100,3 +100,148 @@ theorem hasSuffix_append (suf s : Bytes) : hasSuffix suf (s ++ suf) = true := by
   simp [List.reverse_append, List.isPrefixOf_iff_prefix]
 
 end AcraModel.AuditLog
+
+namespace AcraModel.AuditLog
+open AcraModel Generated.AuditLog
+
+/-! ### `strings.TrimSpace` leaves a string alone whose first and last bytes are ordinary ASCII -/
+
+/-- an ASCII byte that is not white space -/
+def plainByte (x : UInt8) : Bool := !asciiSpace x && x.toNat < 128
+
+def headHigh (u : Bytes) : Bool := match u with | h :: _ => decide (128 ≤ h.toNat) | [] => false
+
+theorem headHigh_spec {u : Bytes} (h : headHigh u = true) : ∃ x t, u = x :: t ∧ 128 ≤ x.toNat := by
+  cases u with
+  | nil => simp [headHigh] at h
+  | cons x t => exact ⟨x, t, rfl, by simpa [headHigh] using h⟩
+
+theorem uni_heads : ∀ u ∈ uniSpaces, ∃ h t, u = h :: t ∧ 128 ≤ h.toNat := by
+  have : ∀ u ∈ uniSpaces, headHigh u = true := by decide
+  exact fun u hu => headHigh_spec (this u hu)
+
+theorem uni_lasts : ∀ u ∈ uniSpaces, ∃ h t, u.reverse = h :: t ∧ 128 ≤ h.toNat := by
+  have : ∀ u ∈ uniSpaces, headHigh u.reverse = true := by decide
+  exact fun u hu => headHigh_spec (this u hu)
+
+theorem find_uni_none (x : UInt8) (r : Bytes) (hx : x.toNat < 128) :
+    (uniSpaces.find? fun u => u.isPrefixOf (x :: r)) = none := by
+  rw [List.find?_eq_none]
+  intro u hu
+  obtain ⟨h, t, rfl, hh⟩ := uni_heads u hu
+  have : h ≠ x := by intro e; subst e; omega
+  simp [List.isPrefixOf, this]
+
+theorem find_uni_rev_none (x : UInt8) (r : Bytes) (hx : x.toNat < 128) :
+    (uniSpaces.find? fun u => u.reverse.isPrefixOf (x :: r)) = none := by
+  rw [List.find?_eq_none]
+  intro u hu
+  obtain ⟨h, t, he, hh⟩ := uni_lasts u hu
+  have : h ≠ x := by intro e; subst e; omega
+  simp [he, List.isPrefixOf, this]
+
+theorem trimLeft_plain (f : Nat) (x : UInt8) (r : Bytes) (hp : plainByte x = true) : trimLeft f (x :: r) = x :: r := by
+  simp only [plainByte, Bool.and_eq_true, Bool.not_eq_true', decide_eq_true_eq] at hp
+  cases f with
+  | zero => rfl
+  | succ f => simp [trimLeft, hp.1, find_uni_none x r hp.2]
+
+theorem trimRight_plain (f : Nat) (s : Bytes) (x : UInt8) (r : Bytes) (hs : s.reverse = x :: r)
+    (hp : plainByte x = true) : trimRight f s = s := by
+  simp only [plainByte, Bool.and_eq_true, Bool.not_eq_true', decide_eq_true_eq] at hp
+  unfold trimRight
+  rw [hs]
+  have hback : (x :: r).reverse = s := by rw [← hs, List.reverse_reverse]
+  cases f with
+  | zero => simpa [trimRight.go] using hback
+  | succ f =>
+    simp only [trimRight.go, hp.1, Bool.false_eq_true, if_false, find_uni_rev_none x r hp.2]
+    exact hback
+
+/-- a string that starts and ends with ordinary ASCII bytes is not changed by `TrimSpace` -/
+theorem trimSpace_plain (s : Bytes) (x y : UInt8) (r r' : Bytes) (h1 : s = x :: r) (h2 : s.reverse = y :: r')
+    (hx : plainByte x = true) (hy : plainByte y = true) : trimSpace s = s := by
+  unfold trimSpace
+  rw [h1, trimLeft_plain _ x r hx, ← h1]
+  exact trimRight_plain _ s y r' h2 hy
+
+theorem hexNib_plain (n : Nat) (h : n < 16) : plainByte (hexNib n) = true := by
+  have : ∀ m : Fin 16, plainByte (hexNib m.val) = true := by decide
+  exact this ⟨n, h⟩
+
+end AcraModel.AuditLog
+
+namespace AcraModel.AuditLog
+open AcraModel Generated.AuditLog
+
+/-- the part of a rendered line after the split token: hex tag, then ` chain=new` for a chain start -/
+def tagPart (tag : Bytes) (new : Bool) : Bytes := hexEnc tag ++ (if new then newSuffix else [])
+
+/-- the CEF parser's `TrimSpace` does not touch the tag part of a line the hook wrote (the tag is not empty) -/
+theorem trimSpace_tagPart (tag : Bytes) (new : Bool) (hne : tag ≠ []) : trimSpace (tagPart tag new) = tagPart tag new := by
+  cases tag with
+  | nil => exact absurd rfl hne
+  | cons y t =>
+    have hy := y.toNat_lt
+    have hhead : tagPart (y :: t) new = hexNib (y.toNat / 16) :: (hexNib (y.toNat % 16) :: hexEnc t ++ (if new then newSuffix else [])) := by
+      simp [tagPart, hexEnc]
+    -- the last byte
+    have hlast : ∃ z r', (tagPart (y :: t) new).reverse = z :: r' ∧ plainByte z = true := by
+      cases new with
+      | true =>
+        refine ⟨119, (strB " chain=ne").reverse ++ (hexEnc (y :: t)).reverse, ?_, by decide⟩
+        have : newSuffix.reverse = 119 :: (strB " chain=ne").reverse := by decide
+        simp [tagPart, List.reverse_append, this]
+      | false =>
+        rcases List.eq_nil_or_concat (y :: t) with h | ⟨init, l, h⟩
+        · cases h
+        · have hl := l.toNat_lt
+          refine ⟨hexNib (l.toNat % 16), hexNib (l.toNat / 16) :: (hexEnc init).reverse, ?_, hexNib_plain _ (by omega)⟩
+          rw [h]
+          simp [tagPart, hexEnc, List.flatMap_append, List.reverse_append]
+    obtain ⟨z, r', hz, hpz⟩ := hlast
+    exact trimSpace_plain _ _ z _ r' hhead hz (hexNib_plain _ (by omega)) hpz
+
+end AcraModel.AuditLog
+
+namespace AcraModel.AuditLog
+open AcraModel Generated.AuditLog
+
+/-- cutting a rendered line at the LAST split token gives back the entry and the tag part, whatever
+the entry contains -/
+theorem cut_last_rendered (data tag : Bytes) (new : Bool) :
+    cut .last (data ++ splitTok ++ tagPart tag new) = some (data, tagPart tag new) := by
+  have htok : splitTok = 32 :: strB "integrity=" := by decide
+  have hl : lastIndexOf splitTok (splitTok ++ tagPart tag new).tail = none := by
+    unfold tagPart
+    rw [htok, List.cons_append, List.tail_cons, ← List.append_assoc]
+    apply lastIndexOf_skip
+    · intro x hx
+      rcases List.mem_append.mp hx with h | h
+      · have hc : ∀ y ∈ strB "integrity=", y ≠ 32 := by decide
+        exact hc x h
+      · exact hexEnc_ne_space tag x h
+    · cases new <;> decide
+  have := lastIndexOf_append_tok splitTok data (tagPart tag new) hl (by rw [htok]; simp)
+  simp only [cut]
+  rw [this]
+  have e1 : (data ++ splitTok ++ tagPart tag new).take data.length = data := by simp [List.append_assoc]
+  have e2 : (data ++ splitTok ++ tagPart tag new).drop (data.length + splitTok.length) = tagPart tag new := by
+    rw [← List.length_append]
+    exact List.drop_left
+  simp only [Option.map_some, e1, e2]
+
+/-- what the parser does with the tag part: the marker and the tag come back -/
+theorem tagPart_parse (tag : Bytes) (new : Bool) :
+    hasSuffix newSuffix (tagPart tag new) = new ∧
+      hexDec (if new then (tagPart tag new).take ((tagPart tag new).length - newSuffix.length) else tagPart tag new) = some tag := by
+  have h10 : newSuffix.length = 10 := by decide
+  cases new with
+  | false => simp [tagPart, hexEnc_not_new, hexDec_hexEnc]
+  | true => simp [tagPart, hasSuffix_append, hexDec_hexEnc, h10]
+
+theorem rendered_nonempty (data t : Bytes) : (data ++ splitTok ++ t).isEmpty = false := by
+  have htok : splitTok = 32 :: strB "integrity=" := by decide
+  rw [htok]; simp
+
+end AcraModel.AuditLog
